@@ -429,7 +429,13 @@ def case_auth(seed, out, spec):
         idx = int(str(seed).split(':')[-1])
         cfg['SERVICE_USERNAME'] = ['bob', 'ünï', 'a:b', 'user@example.com', ''][idx % 5]
         if mode == 'basic':
-            cfg['SERVICE_PASSWORD'] = ['pw', '', 'p w', 'päss'][(idx // 5) % 4]
+            cfg['SERVICE_PASSWORD'] = ['pw', '', 'p w', 'päss', 'p?ss>word~', '>>>???'][(idx // 5) % 6]
+            if r.chance(0.4):
+                # any text: the token's base64 form then uses its whole alphabet (+ and / included)
+                alphabet = 'abcXYZ019 ?>~<|:;/+-_=.,!"$%&ÿü€'
+                cfg['SERVICE_PASSWORD'] = ''.join(r.pick(alphabet) for _ in range(r.randrange(0, 14)))
+                if r.chance(0.5):
+                    cfg['SERVICE_USERNAME'] = ''.join(r.pick(alphabet.replace(':', '')) for _ in range(r.randrange(1, 9)))
     elif mode == 'custom':
         cfg['SERVICE_AUTH_PROVIDER'] = 'vf.props.c08.VfProvider'
         cfg['MY_TENANT'] = r.randrange(1000)
